@@ -100,6 +100,60 @@ def respond (d : FruDev) (cmd : Nat) (p : List Nat) : FruDev × List Nat :=
   else if cmd = cmdWrite then respondWrite d p
   else (d, [ccInvalidCmd])
 
+/-! ### what the inventory area holds: Platform Management FRU Information Storage Definition v1.0
+
+  §8 Common Header (8 bytes at offset 0): byte 0 format version (01h); bytes 1..5 the starting offsets of
+  the Internal Use, Chassis Info, Board Info, Product Info and MultiRecord areas "in multiples of 8 bytes.
+  00h indicates that this area is not present"; byte 6 PAD; byte 7 zero checksum of the header.
+  §10-§12 info areas: byte 0 format version, byte 1 "area length (in multiples of 8 bytes)".
+  §16 MultiRecord area: records of a 5-byte header [type id, bit 7 = end of list | format version, record
+  length, record checksum, header checksum] followed by `record length` bytes; the record whose end-of-list
+  bit is set is the last.
+
+  Which bytes are "the area the FRU device stores" is read off the image here, independently of the library:
+  an area whose offset byte is 00h is NOT stored (`none`), whatever other bytes the image holds. -/
+
+inductive AreaId where
+  | internal | chassis | board | product | multirecord
+  deriving Repr, DecidableEq, Inhabited
+
+/-- index of the area's starting-offset byte in the common header (§8) -/
+def AreaId.hdrByte : AreaId → Nat
+  | .internal => 1
+  | .chassis => 2
+  | .board => 3
+  | .product => 4
+  | .multirecord => 5
+
+/-- the image starts with a common header whose eight bytes sum to zero -/
+def headerOk (image : List Nat) : Prop := 8 ≤ image.length ∧ (image.take 8).sum % 256 = 0
+
+/-- byte offset at which area `a` starts; `none`: "00h indicates that this area is not present" -/
+def areaStart (image : List Nat) (a : AreaId) : Option Nat :=
+  if image.getD a.hdrByte 0 = 0 then none else some (image.getD a.hdrByte 0 * 8)
+
+/-- the bytes of info area `a` (chassis / board / product): from its start, `8 ×` its length byte -/
+def infoArea (image : List Nat) (a : AreaId) : Option (List Nat) :=
+  (areaStart image a).map fun o => (image.drop o).take (image.getD (o + 1) 0 * 8)
+
+/-- end (exclusive) of the record list that starts at `p`: the end of the first record whose end-of-list
+bit is set; `none` when the list runs out of the image (fuel = bytes left, every record has ≥ 5) -/
+def recordsEnd (image : List Nat) : Nat → Nat → Option Nat
+  | 0, _ => none
+  | fuel + 1, p =>
+    if image.length < p + 5 then none
+    else
+      let next := p + 5 + image.getD (p + 2) 0
+      if image.length < next then none
+      else if image.getD (p + 1) 0 / 128 % 2 = 1 then some next
+      else recordsEnd image fuel next
+
+/-- the bytes of the multirecord area: all records up to and including the end-of-list record -/
+def multiArea (image : List Nat) : Option (Option (List Nat)) :=
+  match areaStart image .multirecord with
+  | none => some none
+  | some o => (recordsEnd image (image.length + 1) o).map fun e => some ((image.drop o).take (e - o))
+
 /-! ### faults at chosen request indices (histories: a write that fails midway and is resumed)
 
   `FaultyDev` is the reference device plus a plan of faults keyed by the index of the request
